@@ -160,7 +160,7 @@ func oneRun(r *rep.Report, spec runSpec) {
 		l.add(e)
 	}
 	ms := func(n int) time.Duration { return time.Duration(n) * time.Millisecond }
-	var burstFires [2]int64
+	var burstFires [7]int64
 	canaryOK := func() bool {
 		t0 := time.Now()
 		time.Sleep(20 * time.Millisecond)
@@ -269,8 +269,9 @@ func oneRun(r *rep.Report, spec runSpec) {
 		}
 		quiet(ms(6200))
 	case "concurrent-adds-one-id":
-		// several clients add a job under one id at the same moment, twice; then one removes it
-		for burst := 0; burst < 2; burst++ {
+		// several clients add a job under one id at the same moment, seven times; the first burst's
+		// survivor fires, the later ones are replaced by the next burst, the last one is removed
+		for burst := 0; burst < 7; burst++ {
 			b := burst
 			var wg sync.WaitGroup
 			gate := make(chan bool)
@@ -294,10 +295,10 @@ func oneRun(r *rep.Report, spec runSpec) {
 				quiet(ms(1900))
 			}
 		}
-		// the second burst's survivor is removed before it is due
+		// the last burst's survivor is removed before it is due
 		c.Rem(ctx, "cx")
 		quiet(ms(1900))
-		r.Count("concurrent_add_bursts", 2)
+		r.Count("concurrent_add_bursts", 7)
 		if n := atomic.LoadInt64(&burstFires[0]); n != 1 {
 			if canaryOK() {
 				r.Violate("", fmt.Sprintf("8 concurrent Adds of a one-shot job under one id led to %d fires (exactly one job is pending afterwards)", n), rep.J{"run": spec})
@@ -305,8 +306,10 @@ func oneRun(r *rep.Report, spec runSpec) {
 				r.Inconclusive("canary late")
 			}
 		}
-		if n := atomic.LoadInt64(&burstFires[1]); n != 0 {
-			r.Violate("", fmt.Sprintf("a job added by concurrent Adds and removed before it was due fired %d time(s)", n), rep.J{"run": spec})
+		for b := 1; b < 7; b++ {
+			if n := atomic.LoadInt64(&burstFires[b]); n != 0 {
+				r.Violate("", fmt.Sprintf("a job added by concurrent Adds and replaced or removed before it was due fired %d time(s)", n), rep.J{"run": spec, "burst": b})
+			}
 		}
 	case "recurring":
 		addRec("j0")
